@@ -139,7 +139,10 @@ class CallMixin:
             base = z3.IntVal(0)
         if not gen.ifs:
             jj = z3.Int(fresh_name("j"))
-            st.set_list(lty, r, n, z3.Lambda([jj], z3.substitute(et, (j, jj + base))))
+            mel = z3.Const(fresh_name("mapel"), z3.ArraySort(I, ety.sort()))
+            st.assume(z3.ForAll([jj], z3.Implies(z3.And(0 <= jj, jj < n), mel[jj] == z3.substitute(et, (j, jj + base))),
+                                patterns=[mel[jj]]))
+            st.set_list(lty, r, n, mel)
             return SV(lty, r)
         # filter: ghost strictly increasing index map
         idx = z3.Function(fresh_name("fidx"), I, I)
@@ -151,7 +154,20 @@ class CallMixin:
         st.assume(z3.ForAll([a, b2], z3.Implies(z3.And(0 <= a, a < b2, b2 < m), idx(a) < idx(b2))))
         st.assume(z3.ForAll([i2], z3.Implies(gi(i2), z3.Exists([a], z3.And(0 <= a, a < m, idx(a) == i2)))))
         jj = z3.Int(fresh_name("j"))
-        st.set_list(lty, r, m, z3.Lambda([jj], z3.substitute(et, (j, idx(jj)))))
+        fel = z3.Const(fresh_name("filtel"), z3.ArraySort(I, ety.sort()))
+        st.assume(z3.ForAll([jj], z3.Implies(z3.And(0 <= jj, jj < m), fel[jj] == z3.substitute(et, (j, idx(jj)))),
+                            patterns=[fel[jj]]))
+        st.set_list(lty, r, m, fel)
+        if it.ty.kind == "list" and isinstance(node.elt, ast.Name) and isinstance(gen.target, ast.Name) \
+                and node.elt.id == gen.target.id and it.ty == lty:
+            # [x for x in L if c]: the result is a sub-list of L
+            mf = self.list_mem(st, lty, r)
+            mp = self.list_mem(st, it.ty, it.t)
+            x = z3.Const(fresh_name("x"), ety.sort())
+            st.assume(z3.ForAll([x], z3.Implies(mf[x], mp[x]), patterns=[mf[x]]))
+            # ... that contains every element satisfying the condition
+            pel = st.list_elems(it.ty, it.t)
+            st.assume(z3.ForAll([i2], z3.Implies(gi(i2), mf[pel[i2]]), patterns=[pel[i2]]))
         st.ghost["_filter_%d" % getattr(node, "lineno", 0)] = SV(FUN, py=("filteridx", idx, m))
         return SV(lty, r)
 
@@ -199,6 +215,10 @@ class CallMixin:
                 self.dropped.add(d)
                 return mk_none()
             head = d.split(".")[0]
+            if d in self.reg.externals and (head in st.locals or head in st.ghost):
+                args = [self.ev(a, st, ctx) for a in node.args]
+                kw = {k.arg: self.ev(k.value, st, ctx) for k in node.keywords}
+                return self.reg.externals[d](self, st, ctx, args, kw, node)
             if head not in st.locals and head not in st.ghost:
                 if ctx.spec:
                     h = getattr(self, "spec_" + d, None)
@@ -291,6 +311,8 @@ class CallMixin:
 
     def bi_str(self, node, st, ctx):
         (x,) = self.args_of(node, st, ctx)
+        if x.ty.kind == "exc":
+            return mk_str(x.t)
         if x.ty.kind == "val":
             f = self.uf("str_of_val", [Val], S)
             st.assume(z3.Implies(Val.is_VStr(x.t), f(x.t) == Val.s(x.t)))
@@ -493,6 +515,13 @@ class CallMixin:
             d = base.py[1] + "." + name
             raise Unsupported("call to unmodelled function %s (line %s)" % (d, node.lineno))
         raise Unsupported("method %s on %r (line %s)" % (name, base.ty, node.lineno))
+
+    # real numbers (numpy scalars)
+    def m_real_item(self, base, node, st, ctx):
+        return base
+
+    def m_exc___str__(self, base, node, st, ctx):
+        return mk_str(base.t)
 
     # dict
     def m_dict_keys(self, base, node, st, ctx):
